@@ -13,7 +13,7 @@ from gens import atoms_of, base_cells, make_supercell, tables
 from permcorr import fake_cutoff, impl_cpt_labels, random_near
 from reference import atom_perm_by_matching, min_image_distances, projector_onto_admissible
 
-UNITS = ["Tables", "IndepGen", "ShapesCombos", "ShapesO1", "ShapesBasis", "ShapesPerm", "ShapesAuxO1", "SkelBasis", "SkelPerm", "SkelIdx", "ShapesCoset", "ShapesSumRule", "ShapesSpg", "ShapesReps", "EigStruct", "ShapesAuxEig", "SkelSpg", "SkelEig", "SkelMat", "CutoffGen", "ShapesGeom", "ShapesAuxCut", "SkelCut"]
+UNITS = ["Tables", "IndepGen", "ShapesCombos", "ShapesO1", "ShapesBasis", "ShapesPerm", "ShapesAuxO1", "SkelBasis", "SkelPerm", "SkelIdx", "ShapesCoset", "ShapesSumRule", "ShapesSpg", "ShapesReps", "EigStruct", "ShapesAuxEig", "SkelSpg", "SkelEig", "SkelMat", "CutoffGen", "ShapesGeom", "ShapesAuxCut", "SkelCut", "ShapesApi", "SkelApi"]
 PROPS = ["props/C04.v", "props/C04_span.v"]
 ASSUMPTIONS = ["eigenvalue selection (np.isclose to 1, 1e-8 window) is C15's subject; the reference null space uses a 1e-9 relative threshold"]
 
